@@ -81,3 +81,9 @@ Theorem C04_bare_reserved_segment_refuted :
   exists d, BareWordParse.core3_doc d = true /\ BareWord.lex_safe3_doc d = false /\
             ~ BareWordEx.lex_emit_core3_concl TokRoundEx.ex_cls (fun _ => false) d /\ BareWordEx.rt3_fails d.
 Proof. exact BareWordEx.lex_emit_core3_refuted_reserved_segment_true. Qed.
+
+(* the lexer, parser and emitter functions are, text for text, the ones the hand-written models were validated against
+   (one digest per function, comments and docstrings excluded; harness/translate/srcdigest_t.py) *)
+From OV Require Import Gen.SrcDigestGen Syn.Pins_SrcDigest.
+Theorem C04_pin_source_text : src_lexer_pinned /\ src_parser_pinned /\ src_emitter_pinned.
+Proof. exact (conj src_lexer_pinned_ok (conj src_parser_pinned_ok src_emitter_pinned_ok)). Qed.
